@@ -13,9 +13,9 @@ CLAIMED = {
         "technique": "Coq proof: refinement to an abstract map by induction over host-call histories + frame lemmas; differential correspondence",
     },
     "C13": {
-        "text": "Coq theorems (closed under the global context) about the model tokenizer for every byte string: ranges in bounds, non-empty, ordered, non-overlapping, starting/ending on non-blank bytes, on character boundaries; REM extends to end of line; error position in bounds and after all produced tokens; fuel never the reason to stop. Re-tokenization of a slice is not proved (checked by oracle + correspondence, exhaustive over short strings).",
+        "text": "Coq theorems (closed under the global context) about the model tokenizer for every byte string: ranges in bounds, non-empty, ordered, non-overlapping, starting/ending on non-blank bytes, on character boundaries; REM extends to end of line; error position in bounds and after all produced tokens; fuel never the reason to stop; and tokenizing the text of a token's range on its own yields exactly that one token, for every line, also for the tokens in front of an error (C13_retok, C13_retok_before_error: every matcher is prefix-stable, look-aheads included - keyword look-ahead inside identifiers, second operator character behind blanks, blanks inside numbers, the DATA item parser - and a matcher that does not match a text matches no prefix of it; Proofs/LexerRetok.v). All clauses of the property are proved; the oracle and the correspondence (exhaustive over short strings) tie the model tokenizer to the implementation.",
         "design_ref": "DESIGN.md 6 C13",
-        "note": NOTE + "C13_retok (slice re-tokenizes to the same single token) is validated, not proved.",
+        "note": NOTE,
         "technique": "Coq proof: per-matcher lemmas + induction on the token iterator; exhaustive small-scope + random differential correspondence",
     },
 }
